@@ -149,6 +149,8 @@ def id_refs(kinds: t.Sequence[str]) -> t.Any:
     for k in kinds:
         if k == "zero":
             alts.append(st.just(("zero",)))
+        elif k == "alias":
+            alts.append(st.tuples(st.just(k), st.integers(0, 23)))
         else:
             alts.append(st.tuples(st.just(k), st.integers(0, 5)))
     return st.one_of(*alts)
@@ -177,7 +179,7 @@ def client_steps(max_steps: int = 40, drains: bool = False, closers: bool = True
     resp_kinds = st.sampled_from(["bindResponse", "searchResEntry", "searchResRef", "searchResDone", "extendedResp"])
     req_kinds = st.sampled_from(["bindRequest", "searchRequest", "extendedReq", "unbindRequest"])
     good_ids = id_refs(["open", "open", "search", "single"])
-    bad_ids = id_refs(["completed", "completed", "never", "zero", "neg"])
+    bad_ids = id_refs(["completed", "completed", "never", "zero", "neg", "alias"])
     auto = st.fixed_dictionaries({"kind": st.just("auto"), "final": st.booleans(), "id": good_ids, "code": _CODES, "v": _V,
                                   "name": st.none(), "strict": st.just(True)})
     mismatch = st.fixed_dictionaries({"kind": resp_kinds, "id": good_ids, "code": _CODES, "v": _V, "name": st.none(), "strict": st.just(True)})
@@ -216,7 +218,7 @@ def server_steps(max_steps: int = 40, drains: bool = False, closers: bool = True
     )
     recv_good = st.fixed_dictionaries({"op": st.just("recv"), "msgs": st.lists(msg_ok, min_size=1, max_size=3)})
     recv_bad = st.fixed_dictionaries({"op": st.just("recv"), "msgs": st.lists(_weighted([(2, msg_ok), (1, msg_bad)]), min_size=1, max_size=3)})
-    any_ids = id_refs(["open", "open", "open", "open", "search", "single", "completed", "completed", "never", "zero"])
+    any_ids = id_refs(["open", "open", "open", "open", "search", "single", "completed", "completed", "never", "zero", "alias", "alias"])
     respond_auto = st.fixed_dictionaries({"op": st.just("respond"), "kind": st.just("auto"), "final": st.booleans(),
                                           "id": id_refs(["open", "open", "search", "single"]), "code": _CODES, "v": _V})
     respond_any = st.fixed_dictionaries({"op": st.just("respond"), "kind": st.sampled_from(["bind", "entry", "ref", "done", "extended"]),
@@ -355,7 +357,7 @@ def exec_step(s: t.Any, side: str, step: t.Dict[str, t.Any], mdl: model.Model) -
             mid = mdl.resolve(("fresh", v))
             if what == "filter":
                 m = peer_message("searchRequest", mid, 0, 0)
-                m["filter"] = ("custom", custom.CUSTOM_FILTER_ID, f"flt{v}".encode())
+                m["filter"] = custom_filter_in(("custom", custom.CUSTOM_FILTER_ID, f"flt{v}".encode()), v)
             elif what == "auth":
                 m = peer_message("bindRequest", mid, 0, 0)
                 m["auth"] = ("custom", custom.CUSTOM_AUTH_ID, f"user{v}:secret".encode())
@@ -374,6 +376,12 @@ def exec_step(s: t.Any, side: str, step: t.Dict[str, t.Any], mdl: model.Model) -
             return Outcome("recv", False, e, None, None, {"msgs": [m]})
         return Outcome("recv", True, None, [absval.to_abstract(x, decoded=True) for x in r], None, {"msgs": [m]})
     raise ValueError(f"unknown step {step!r}")
+
+
+def custom_filter_in(leaf: t.Any, v: int) -> t.Any:
+    """The custom filter at the top level or below and / or / not (v selects the position)."""
+    other = ("present", "cn")
+    return [leaf, ("and", [other, leaf]), ("or", [leaf, other]), ("not", leaf), ("and", [("or", [other, ("not", leaf)])]), ("or", [("and", [leaf])])][v % 6]
 
 
 # ---------------------------------------------------------------------------------------- lock-step interpreter
